@@ -148,7 +148,7 @@ func (w *world) apply(a action) (problem string) {
 		if a.msg != len(w.pool)-1 {
 			w.faults++ // not the newest message: delayed / reordered
 		}
-		isApp, out, err := w.s[a.side].Deliver(nil, m, tBase)
+		isApp, out, err := deliverRecycled(w.s[a.side], m, tBase)
 		if err != nil {
 			return "" // errors are allowed, they just must not be permanent (checked by the suffix)
 		}
@@ -180,7 +180,7 @@ func (w *world) fairSuffix() (problem string) {
 			m := w.s[side].Handshake(nil)
 			to := 1 - side
 			for hops := 0; len(m) > 0 && hops < 8; hops++ {
-				_, out, err := w.s[to].Deliver(nil, m, tBase)
+				_, out, err := deliverRecycled(w.s[to], m, tBase)
 				if err != nil {
 					// m is the current handshake message of the genuine peer (or the reply it provoked):
 					// retries must always be accepted or ignored, never refused
@@ -212,7 +212,7 @@ func (w *world) fairSuffix() (problem string) {
 		if c := counterOf(ct); c < 16 {
 			return fmt.Sprintf("after completion side %c sends data under handshake-range counter %d", "AB"[side], c)
 		}
-		isApp, out, err := w.s[1-side].Deliver(nil, ct, tBase)
+		isApp, out, err := deliverRecycled(w.s[1-side], ct, tBase)
 		if err != nil || !isApp || !eq(out, pt) {
 			return fmt.Sprintf("after completion data from %c is not delivered: isApp=%v out=%q err=%v (counter %d)", "AB"[side], isApp, out, err, counterOf(ct))
 		}
